@@ -287,6 +287,11 @@ func main() {
 	}
 	r.Cases("small-exhaustive", small, ev.Opt{HangViolation: true}, smallCase)
 	r.Cases("valid", r.N(500000, 12000000), ev.Opt{HangViolation: true}, validCase)
+	// the same workload on parallel workers under the race detector: package-level state shared
+	// between instances that no goroutine shares is reported from the happens-before relation,
+	// whether or not the accesses collide in this run (and however loaded the machine is)
+	r.CasesProc("valid/race-parallel", r.N(4000, 100000), ev.Opt{Bin: "race", Procs: 2, Workers: 8, AlwaysLog: true, HangViolation: true, MaxCaseSeconds: 120}, validCase)
+	r.CasesProc("roundtrip/race-parallel", r.N(1500, 40000), ev.Opt{Bin: "race", Procs: 2, Workers: 8, AlwaysLog: true, HangViolation: true, MaxCaseSeconds: 120}, roundtripCase)
 	r.Cases("hostile", r.N(500000, 12000000), ev.Opt{HangViolation: true}, hostileCase)
 	r.Cases("roundtrip", r.N(150000, 5000000), ev.Opt{HangViolation: true}, roundtripCase)
 	r.Cases("hugearg", r.N(50000, 1500000), ev.Opt{HangViolation: true}, hugeCase)
